@@ -79,6 +79,22 @@ partial def pStmt : P Stmt
   | "brk" :: r => some (.brk, r)
   | "cont" :: r => some (.cont, r)
   | "blk" :: r => do let (b, r) ← pStmt r; pure (.block b, r)
+  | "lbl" :: l :: r => do let (b, r) ← pStmt r; pure (.labeled l b, r)
+  | "brkL" :: l :: r => some (.brkL l, r)
+  | "contL" :: l :: r => some (.contL l, r)
+  | "switch" :: r => do
+    let (t, r) ← pOptExpr r
+    match r with
+    | ty :: r => do let (c, r) ← pStmt r; pure (.switchS t (ty == "int") c, r)
+    | [] => none
+  | "case" :: r => do
+    let (e1, r) ← pExpr r
+    let (e2, r) ← pOptExpr r
+    let (b, r) ← pStmt r
+    match r with
+    | f :: r => do let (rest, r) ← pStmt r; pure (.caseS e1 e2 b (f == "ft") rest, r)
+    | [] => none
+  | "default" :: r => do let (b, r) ← pStmt r; pure (.defaultS b, r)
   | _ => none
 
 def takeN {α : Type} : Nat → List α → Option (List α × List α)
